@@ -20,6 +20,7 @@ import sys, os, re, json, subprocess, shutil, hashlib, concurrent.futures, time
 
 ROOT = "/verif"
 OUT = f"{ROOT}/mutsweep"
+SET = os.environ.get("MS_SET", "")  # "" = operator sweep, "2" = identifier-swap sweep
 FILES = ["vlq.rs", "decoder.rs", "encoder.rs", "types.rs", "builder.rs", "sourceview.rs", "hermes.rs",
          "detector.rs", "utils.rs", "js_identifiers.rs", "ram_bundle.rs", "jsontypes.rs"]
 # which checks a file can influence (superset chosen by reading the anchors of properties.jsonl)
@@ -58,6 +59,14 @@ OPS = [
     ("opt", r"\.is_empty\(\)", ".is_empty() == false"),
     ("first", r"\.next_back\(\)", ".next()"), ("first", r"\.last\(\)", ".first()"), ("first", r"\.first\(\)", ".last()"),
 ]
+
+
+# identifier swaps: the copy-and-paste / wrong-unit family (set "2")
+SWAPS = [("src_line", "src_col"), ("dst_line", "dst_col"), ("line", "col"), ("start", "end"), ("names", "sources"), ("name_id", "src_id"),
+         ("name", "source"), ("len_utf8", "len_utf16"), ("offset", "length"), ("idx", "id"), ("prev_line", "prev_col"), ("first", "last"),
+         ("get_src_line", "get_dst_line"), ("get_src_col", "get_dst_col"), ("get_dst_line", "get_dst_col"), ("get_src_line", "get_src_col"),
+         ("get_source", "get_name"), ("u32", "u16"), ("i64", "i32"), ("original_range", "adjustment_range"), ("self_tokens", "adjustment"),
+         ("lo", "hi"), ("before", "after"), ("push", "insert_front_placeholder"), ("0", "1")]
 
 
 def code_lines(path):
@@ -107,7 +116,44 @@ def gen():
         for i, l in cl:
             code, com = split_comment(l)
             cands = []
-            for op, pat, rep in OPS:
+            if SET == "2":
+                for a, b in SWAPS:
+                    if "placeholder" in b or a in ("0",):
+                        continue
+                    for x, y in ((a, b), (b, a)):
+                        for k, m in enumerate(re.finditer(r"(?<![\w.])" + re.escape(x) + r"(?![\w(])" if not x.startswith("get_") and x not in ("len_utf8", "len_utf16") else r"\b" + re.escape(x) + r"\b", code)):
+                            cands.append((f"swap-{x}", k, code[:m.start()] + y + code[m.end():]))
+            if SET == "3":
+                # milder control-flow mutants: a condition forced, one operand of && / || dropped,
+                # an early exit removed, an iterator no longer reversed, a stable sort made unstable
+                m3 = re.match(r"^(\s*(?:\} else )?if )(?!let )(.*)( \{)$", code)
+                if m3:
+                    cands.append(("if-false", 0, f"{m3.group(1)}false{m3.group(3)}"))
+                    cands.append(("if-true", 0, f"{m3.group(1)}true{m3.group(3)}"))
+                    cond = m3.group(2)
+                    for sep in (" && ", " || "):
+                        if cond.count(sep) == 1 and "(" not in cond.split(sep)[0].replace("()", "") + cond.split(sep)[1].replace("()", "") or cond.count(sep) == 1 and cond.count("(") == cond.count(")") and all(part.count("(") == part.count(")") for part in cond.split(sep)):
+                            a, b = cond.split(sep)
+                            cands.append(("drop-right", 0, f"{m3.group(1)}{a}{m3.group(3)}"))
+                            cands.append(("drop-left", 0, f"{m3.group(1)}{b}{m3.group(3)}"))
+                mw = re.match(r"^(\s*while )(?!let )(.*)( \{)$", code)
+                if mw:
+                    cands.append(("while-false", 0, f"{mw.group(1)}false{mw.group(3)}"))
+                st = code.strip()
+                if re.match(r"^(return\b.*|continue|break);$", st):
+                    cands.append(("del-exit", 0, code[:len(code) - len(code.lstrip())] + "();"))
+                for k, m in enumerate(re.finditer(r"\.rev\(\)", code)):
+                    cands.append(("no-rev", k, code[:m.start()] + code[m.end():]))
+                for a, b in (("sort_by_key", "sort_unstable_by_key"), ("sort_by(", "sort_unstable_by("), (".sort()", ".sort_unstable()"), ("sort_unstable_by_key", "sort_by_key")):
+                    for k, m in enumerate(re.finditer(re.escape(a), code)):
+                        cands.append(("sort", k, code[:m.start()] + b + code[m.end():]))
+                for k, m in enumerate(re.finditer(r"\.unwrap_or\(([^()]*)\)", code)):
+                    cands.append(("unwrap-default", k, code[:m.start()] + ".unwrap_or_default()" + code[m.end():]))
+                for k, m in enumerate(re.finditer(r"\.min\(([^()]*)\)|\.max\(([^()]*)\)", code)):
+                    cands.append(("no-clamp", k, code[:m.start()] + code[m.end():]))
+                for k, m in enumerate(re.finditer(r"\?;$", code)):
+                    pass
+            for op, pat, rep in ([] if SET in ("2", "3") else OPS):
                 if "removed" in rep:
                     continue
                 for k, m in enumerate(re.finditer(pat, code)):
@@ -123,7 +169,7 @@ def gen():
                         continue
                     cands.append((op, k, new))
             # numeric literals (tables of literals are skipped)
-            nums = list(re.finditer(r"(?<![\w.'\"])(\d+)(?![\w.'\"]|_)", code))
+            nums = [] if SET in ("2", "3") else list(re.finditer(r"(?<![\w.'\"])(\d+)(?![\w.'\"]|_)", code))
             if re.match(r"^\s*-?\d+,$", code) and i % 8 != 0:
                 nums = []  # one-value-per-line tables: every eighth entry
             if 0 < len(nums) <= 4 and '"' not in code:
@@ -134,11 +180,12 @@ def gen():
             s = code.strip()
             # negate a condition
             m = re.match(r"^(\s*(?:\} else )?(?:if|while) )(?!let )(.*)( \{)$", code)
-            if m:
+            if m and SET not in ("2", "3"):
                 cands.append(("neg", 0, f"{m.group(1)}!({m.group(2)}){m.group(3)}"))
             # delete a statement: plain call or assignment, one line
             if re.match(r"^[a-z_][\w.\[\]()]*(\.\w+\(.*\))?;$", s) and not s.startswith(("return", "break", "continue", "let ")) or re.match(r"^[a-z_*][\w.\[\]()*]* [-+|&]?= .*;$", s):
-                cands.append(("del", 0, code[:len(code) - len(code.lstrip())] + "();"))
+                if SET not in ("2", "3"):
+                    cands.append(("del", 0, code[:len(code) - len(code.lstrip())] + "();"))
             for op, k, new in cands:
                 if new == code:
                     continue
@@ -148,7 +195,7 @@ def gen():
                 seen.add(key)
                 mid = f"{f[:-3]}:{i + 1}:{op}{k}:" + hashlib.sha1(new.encode()).hexdigest()[:6]
                 muts.append({"id": mid, "file": f, "line": i + 1, "op": op, "old": l, "new": new + com})
-    with open(f"{OUT}/mutants.jsonl", "w") as fh:
+    with open(f"{OUT}/mutants{SET}.jsonl", "w") as fh:
         for m in muts:
             fh.write(json.dumps(m, ensure_ascii=False) + "\n")
     by = {}
@@ -158,11 +205,11 @@ def gen():
 
 
 def load():
-    return [json.loads(l) for l in open(f"{OUT}/mutants.jsonl")]
+    return [json.loads(l) for l in open(f"{OUT}/mutants{SET}.jsonl")]
 
 
 def load_status(name):
-    p = f"{OUT}/{name}.json"
+    p = f"{OUT}/{name}{SET}.json"
     return json.load(open(p)) if os.path.exists(p) else {}
 
 
@@ -239,7 +286,7 @@ def run_lanes(fn, muts, lanes, name):
             futs = [ex.submit(fn, (n, parts[n][r * chunk:(r + 1) * chunk])) for n in range(lanes)]
             for f in futs:
                 status.update(f.result())
-            json.dump(status, open(f"{OUT}/{name}.json", "w"), indent=0, sort_keys=True)
+            json.dump(status, open(f"{OUT}/{name}{SET}.json", "w"), indent=0, sort_keys=True)
             print(f"{name}: round {r + 1}/{rounds}, {len(status)} done", flush=True)
     return status
 
